@@ -23,6 +23,7 @@ cv_i64 gh_n;            /* size of a block supplied by the caller               
 cv_i8  gh_flag;         /* entry value of the marker byte behind a stack_storage frame          */
 cv_i1  gh_own;          /* "ptr is the storage's own block" (mtsafe dealloc)                    */
 cv_i64 gh_G;            /* arbitrary-but-fixed byte index ("for all i")                         */
+cv_i8  gh_byte;         /* entry value of byte gh_G of the own block                            */
 
 /* reusable_storage_mtsafe: trailer = pointer to the owning storage at ptr+sz */
 #define MT_TRAILER sizeof(void *)
@@ -203,7 +204,8 @@ __CPROVER_ensures(MT_RS(this_)->_ptr != 0 ==> gh_last_del == MT_RS(this_)->_ptr)
 #define MT_SEEN_BUSY __CPROVER_old(MT_BUSY(this_))
 #define MT_P0 __CPROVER_old(MT_RS(this_)->_ptr)
 #define MT_C0 __CPROVER_old(MT_RS(this_)->_capacity)
-#define MT_EXTRA_PRE 1
+#define MT_BYTE0 gh_byte
+#define MT_EXTRA_PRE ((MT_RS(this_)->_ptr != 0 && gh_G < MT_RS(this_)->_capacity) ==> gh_byte == MT_RS(this_)->_ptr[gh_G])
 #define MT_EXTRA_ASSIGNS
 #define MT_EXTRA_POST 1
 #endif
@@ -221,6 +223,8 @@ __CPROVER_ensures(MT_SEEN_BUSY == 0 ==> (__CPROVER_return_value == MT_RS(this_)-
 /* flag was taken: a live frame may sit in the own block - it is neither handed out nor touched; the caller gets a fresh heap block */
 __CPROVER_ensures(MT_SEEN_BUSY != 0 ==> (FRESH_BLOCK(__CPROVER_return_value, sz + MT_TRAILER) && NO_DEL &&
                    __CPROVER_return_value != MT_RS(this_)->_ptr && MT_RS(this_)->_ptr == MT_P0 && MT_RS(this_)->_capacity == MT_C0))
+/* ... and no byte of the own block is written (position-wise over the arbitrary index gh_G): the live frame there is undisturbed */
+__CPROVER_ensures((MT_SEEN_BUSY != 0 && MT_P0 != 0 && gh_G < MT_C0) ==> MT_RS(this_)->_ptr[gh_G] == MT_BYTE0)
 __CPROVER_ensures(RS_WF_POST(MT_RS(this_)))
 __CPROVER_ensures(MT_EXTRA_POST)
 ;
@@ -349,7 +353,7 @@ __CPROVER_ensures(cv_exc_pending == 0 && HEAP_UNCHANGED)
  * Construction / destruction of the extra object are observed through the hooks of the driver's Extra (c19_extra_ctor/_dtor).
  * In the contract units the factory call (cocls::function<Extra()>::operator()) is an assumed-contract boundary: "constructs one
  * Extra in the place it is given"; the lemma unit pes_pair runs the real function<> machinery instead. */
-#ifdef CV_HAS_factory_call
+#if defined(CV_HAS_pes_alloc) || defined(CV_HAS_pesr_alloc)   /* abstract callee (names_opt): if alloc stops calling the factory the stub is simply unused and EXTRA_MADE_AT fails */
 unsigned gh_fac_calls; FNB *gh_fac_this; cv_i64 gh_fac_v;
 #define FAC_LOG gh_fac_calls, gh_fac_this
 void factory_call(EXTRA *ret, FNB *f) {            /* assumed contract on the factory: makes exactly one Extra(gh_fac_v) in *ret */
